@@ -23,13 +23,6 @@ set_option linter.unusedVariables false
 namespace Poetry.C11
 open Poetry Poetry.Marker Poetry.Spec.Pep508 Poetry.Version Poetry.VParser
 
-/-- reference value of a marker text (the empty text is the absent marker) -/
-def refEval (E : Env) (txt : String) : Option Bool :=
-  if txt.isEmpty then some true
-  else match parseText txt with
-    | .ok syn => evalSyn E syn
-    | .error _ => none
-
 /-- CPython 3.8.1 -/
 def env381 : Env := ⟨[("python_version", "3.8"), ("python_full_version", "3.8.1")], some []⟩
 example : EnvPy env381 3 8 1 := ⟨rfl, rfl⟩
@@ -252,7 +245,7 @@ theorem pyConstraint_exact_validate_partial (E : Env) (X Y Z : Nat) (hE : EnvPy 
 
 /-- the invariant `PyG` on a concrete leaf: `python_version >= "3.8"` on CPython 3.8.1 -/
 example : PyG env381 (.single ⟨"python_version", ">=", "3.8", false, .ver (.single (.rng ⟨some (v [3, 8]), none, true, false⟩))⟩) :=
-  ⟨⟨_, rfl, by rfl, true, by rfl⟩, fun _ => ⟨_, [3, 8], rfl, rfl, by simp [RelOp], .short 3 8, by decide⟩, by show aliasName "python_version" = "python_version"; decide⟩
+  ⟨⟨_, rfl, by rfl, ⟨true, by rfl⟩, by show aliasName "python_version" = "python_version"; decide⟩, fun _ => ⟨_, [3, 8], rfl, rfl, by simp [RelOp], .short 3 8, by decide⟩, by show aliasName "python_version" = "python_version"; decide⟩
 
 /-- a marker on another variable only: `only` answers `AnyMarker`, the range is universal -/
 example : gpc (.leaf (.single ⟨"sys_platform", "==", "linux", false, .gen (.s (.atom ⟨"linux", .eq, false⟩))⟩)) = .ok VC.any := by
@@ -291,7 +284,7 @@ theorem createNested_poetry_partial (E : Env) (S : LeafSpec (leafEval E) (CompLe
 
 /-- the invariant is inhabited by what the parser builds: `python_version >= "3.8"` on CPython 3.8.1 -/
 example : CompLeaf env381 (.single ⟨"python_version", ">=", "3.8", false, .ver (.single (.rng ⟨some (v [3, 8]), none, true, false⟩))⟩) :=
-  ⟨_, rfl, by rfl, true, by rfl⟩
+  ⟨_, rfl, by rfl, ⟨true, by rfl⟩, by show aliasName "python_version" = "python_version"; decide⟩
 
 def C11_createNested_poetry_full_statement : Prop :=
   ∀ (E : Env) (c : VC) (X Y Z : Nat) (txt : String) (m : M), PyDomVC c = true → EnvPy E X Y Z →
